@@ -329,6 +329,12 @@ def run(ctx):
                             c2 = op_const(st2["rv"]["op"])
                             if c2 and "str" in c2:
                                 out.add(c2["str"])
+                    t2 = f.blocks[b2]["term"]
+                    if t2["k"] == "call" and not (t2.get("exp") or ""):
+                        for a2 in t2["args"]:
+                            c2 = op_const(a2)
+                            if c2 and "str" in c2:
+                                out.add(c2["str"])
                 return out
             if rv["op"] == "Gt" and k0 is not None and k0.get("int") == 0 and is_len:
                 many, none = strs(tt), strs(ft)
